@@ -278,6 +278,10 @@ Proof. apply trim_right_fuel_eq. Qed.
 Theorem trim_space_eq d : trim_space d = trim_space_runes d.
 Proof. unfold trim_space, trim_space_runes. now rewrite trim_left_eq, trim_right_eq. Qed.
 
+Theorem trim_all_eq d :
+  trim_space d = trim_space_runes d /\ trim_left d = trim_left_runes d /\ trim_right d = trim_right_runes d.
+Proof. split; [apply trim_space_eq|split; [apply trim_left_eq|apply trim_right_eq]]. Qed.
+
 (* ------------------------------------------------------------------ *)
 (* utf8.Valid                                                          *)
 
